@@ -557,6 +557,41 @@ fn rule_types_respected(rules: &[String], urls: &[(String, String, &'static str)
     })
 }
 
+/// Element-hiding syntax, read off the text: the line is not a comment / header, does not start with
+/// a network anchor, and its FIRST '#' opens one of the documented cosmetic separators.  Such a line
+/// is a cosmetic rule (possibly an unsupported or malformed one) and never a network rule.
+fn cosmetic_by_text(line: &str) -> bool {
+    let t = line.trim();
+    if t.len() <= 1 || t.starts_with('!') || t.starts_with("[Adblock") || t.starts_with('|') || t.starts_with("@@|") {
+        return false;
+    }
+    if t.starts_with('#') && t[1..].starts_with(char::is_whitespace) {
+        return false;
+    }
+    let Some(i) = t.find('#') else { return false };
+    ["##", "#@#", "#?#", "#@?#", "#$#", "#@$#", "#%#", "#@%#", "#$?#", "#@$?#"].iter().any(|sep| t[i..].starts_with(sep))
+}
+
+/// Oracle (e): a line in element-hiding syntax yields no network rule under any rule-type option.
+fn cosmetic_line_not_network(line: &str) -> Result<Option<String>, String> {
+    let l = line.to_string();
+    catch(move || {
+        if !cosmetic_by_text(&l) || l.contains('\n') || l.contains('\r') {
+            return None;
+        }
+        for rt in [RuleTypes::All, RuleTypes::NetworkOnly] {
+            let (_, n, _) = parse_filters_with_metadata([l.clone()].iter(), true, opts(FilterFormat::Standard, rt));
+            if !n.is_empty() {
+                return Some(format!("the element-hiding line {:?} is loaded as a network rule under {}", l, rt_name(rt)));
+            }
+        }
+        if let Ok(adblock::lists::ParsedFilter::Network(_)) = adblock::lists::parse_filter(&l, true, opts(FilterFormat::Standard, RuleTypes::All)) {
+            return Some(format!("parse_filter reads the element-hiding line {:?} as a network rule", l));
+        }
+        None
+    })
+}
+
 fn is_rejected(line: &str, format: FilterFormat) -> bool {
     let l = line.to_string();
     matches!(catch(move || parse_filter(&l, false, opts(format, RuleTypes::All)).is_err()), Ok(true))
@@ -586,6 +621,10 @@ fn replay(rp: &Value) -> Option<String> {
     match kind {
         "panic" => panics_on(rp["text"].as_str().unwrap_or("")).map(|m| format!("panic: {}", m)),
         "hosts" => match hosts_vs_rule(rp["line"].as_str().unwrap_or("")) {
+            Ok(x) => x,
+            Err(m) => Some(format!("panic: {}", m)),
+        },
+        "cosmetic_line" => match cosmetic_line_not_network(rp["line"].as_str().unwrap_or("")) {
             Ok(x) => x,
             Err(m) => Some(format!("panic: {}", m)),
         },
@@ -711,6 +750,14 @@ fn main() {
             Err(m) => sm.failure(None, &format!("panic: {}", m), json!({"kind": "hosts", "line": line})),
             Ok(None) => {}
         }
+        // oracle (e)
+        sm.oracle_evaluations += 1;
+        match cosmetic_line_not_network(line) {
+            Ok(Some(d)) => sm.failure(None, &d, json!({"kind": "cosmetic_line", "line": line})),
+            Err(m) => sm.failure(None, &format!("panic: {}", m), json!({"kind": "cosmetic_line", "line": line})),
+            Ok(None) => {}
+        }
+        if cosmetic_by_text(line) { cs.stat("element_hiding_lines") }
         // detect_filter_type (on the trimmed line, as parse_filter calls it, and on the raw line)
         for t in [line.trim(), line.as_str()] {
             let ty = adblock::lists::verif::detect_filter_type(t);
